@@ -1,13 +1,13 @@
 SPECIFICATION Spec
 CONSTANTS
-  Ls <- LsS
+  Ls <- LsC
   Bszs <- BszAll
   D = 2
   Caps <- CapsC
   B0s <- B0S
   Modes <- ModesAll
   MaxSweeps = 3
-  MinExtra = 1
+  MinExtra = 0
   Ranks = "max"
   Mutant = "none"
   Emit = TRUE
